@@ -153,6 +153,21 @@ static vector<double> build_values()
         add3(dec(s));
         add(-dec(s));
     }
+    // digit-rich values (17 significant non-zero digits) in every decade where %g uses style f and around it:
+    // there the number of fraction digits the engine must produce is P-1-X, i.e. up to precision+3
+    for (int k = -7; k <= 18; k++)
+        for (const char *m : {"1.2345678912345678", "4.5678912345678913", "9.8765432198765432", "2.7182818284590452"})
+        {
+            double v = dec((string(m) + "e" + std::to_string(k)).c_str());
+            add(v);
+            add(-v);
+        }
+    // and every binary exponent of that region (2^-24 .. 2^64) with two dense mantissas, in both tiers
+    for (int e = 1023 - 24; e <= 1023 + 64; e++)
+    {
+        add(from_bits(((uint64_t)e << 52) | 0x243F6A8885A30ull));
+        add(from_bits(((uint64_t)e << 52) | 0x5555555555555ull));
+    }
     // exponent sweep: deterministic "boundary-biased bit patterns"
     static const uint64_t MANT_Q[3] = {0, 0xFFFFFFFFFFFFFull, 0x243F6A8885A30ull};
     static const uint64_t MANT_T[10] = {0,
